@@ -269,7 +269,7 @@ func c15(args []string) int {
 		}
 	}
 	// random long histories, all levels except 10
-	nr := f.N(4000, 150000)
+	nr := f.N(10000, 600000)
 	for i := 0; i < nr; i++ {
 		idx++
 		if !f.Mine(idx) {
@@ -325,7 +325,7 @@ func c15conc(args []string) int {
 	f := mustFlags(args)
 	out := evid.New("C15")
 	out.Sub = "concurrent"
-	runs := f.N(400, 8000)
+	runs := f.N(800, 12000)
 	var clk int64
 	for run := 0; run < runs; run++ {
 		if !f.Mine(run) {
